@@ -24,6 +24,23 @@ M = [
   "            self.inner.set_castle_right(color, true, None);\n        } else {", "C02", "castle", r"O-C02\.play\.castle"),
  ("null.stale-pins", "cozy-chess/src/board/mod.rs",
   "            board.pinned = BitBoard::EMPTY;\n            let color = board.side_to_move();", "            let color = board.side_to_move();", "C14", "null", r"O-C14\.null"),
+ ("movegen.castle-ignores-rook-pin", "cozy-chess/src/board/movegen/mod.rs",
+  "        !pinned.has(rook)\n            && (blockers & must_be_empty).is_empty()", "        (blockers & must_be_empty).is_empty()", "C01", "gen.king.0", r"O-C01\.gen\.king\.0"),
+ ("movegen.pinned-slider-leaves-line", "cozy-chess/src/board/movegen/mod.rs",
+  "                let target_squares = target_squares & get_line_rays(our_king, piece);\n                let moves = P::pseudo_legals(piece, blockers) & target_squares;",
+  "                let moves = P::pseudo_legals(piece, blockers) & target_squares;", "C01", "gen.rook.0", r"O-C01\.gen\.rook\.0"),
+ ("movegen.ep-loop-ignores-mask", "cozy-chess/src/board/movegen/mod.rs",
+  "for piece in get_pawn_attacks(dest, !color) & pieces {", "for piece in get_pawn_attacks(dest, !color) & self.colored_pieces(color, PIECE) {", "C16", "gen.pawn.0", r"O-C16\.gen\.pawn\.0"),
+ ("is_legal.queen-through-blocker", "cozy-chess/src/board/movegen/mod.rs",
+  "                (target_squares & (get_rook_rays(mv.from) | get_bishop_rays(mv.from))).has(mv.to)\n                    && (get_between_rays(mv.from, mv.to) & self.occupied()).is_empty()",
+  "                (target_squares & (get_rook_rays(mv.from) | get_bishop_rays(mv.from))).has(mv.to)\n                    && (get_between_rays(mv.from, mv.to) & self.colors(self.side_to_move())).is_empty()", "C04", "queen", r"O-C04\.is-legal\.queen"),
+ ("validate.ep-origin-unchecked", "cozy-chess/src/board/validate.rs",
+  "            soft_assert!(!self.occupied().has(ep_source));\n", "", "C06", "en_passant", r"O-C06\.en_passant_is_valid"),
+ ("builder.ep-rank-unchecked", "cozy-chess/src/board/builder.rs",
+  "            if square.rank() != en_passant_rank {\n                return Err(());\n            }\n            board.inner.set_en_passant", "            board.inner.set_en_passant", "C09", "build", r"O-C09\.build"),
+ ("status.stalemate-is-win", "cozy-chess/src/board/mod.rs",
+  "        } else if self.checkers().is_empty() {\n            GameStatus::Drawn\n        } else {\n            GameStatus::Won\n        }",
+  "        } else if self.checkers().is_empty() && self.halfmove_clock() > 0 {\n            GameStatus::Drawn\n        } else {\n            GameStatus::Won\n        }", "C12", "status.king", r"O-C12\.status\.king"),
  ("zobrist.wrong-colour-key", "cozy-chess/src/board/zobrist.rs",
   "            .color[color as usize]\n            .pieces[piece as usize]", "            .color[(color as usize) ^ (piece as usize & 1)]\n            .pieces[piece as usize]", "C10", "xor_square", r"O-C10\.writer\.xor_square"),
 ]
